@@ -29,6 +29,10 @@ Record row := mk_row {
 }.
 
 Definition table : list row := [
+  (* line 658; impl rib::Rib (field defs: HashMap<Ident, RibEntry>)
+     `(RibKind::LocalBarrier { .. }, ns) | (RibKind::DummyRoot, ns) => panic!("noun called on {:?} {:?} rib", self, ns)`: the Debug text of
+     a Rib lists its hash map in iteration order, but only inside the message of a panic that reports an internal bug *)
+  mk_row "resolve/mod.rs" "Rib::noun" "fmt-debug" "panic!(""noun called on{:?}{:?}rib"",self,ns)" 1 ["db029df000"] (PinStmt "2cb1862eba") BugPanicMessage "";
   (* line 335; valid_fields:field: HashSet<&'static str>
      HashSet<&str>: `.iter().map(..).any(|x| x == key)` -- an existence test *)
   mk_row "ast/meta.rs" "ParseObject::finish" "iter" "self.valid_fields.iter()" 1 ["4a69e45151"] (PinStmt "f69cbdb4de") AnyAll "";
